@@ -4,7 +4,9 @@
 From Coq Require Import ZArith List Bool PrimFloat.
 From FT.lib Require Import Num Arr ArrLemmas Lower NumArr.
 From FT.gen Require Import Common Fteik2d Fteik3d.
-From FT.proofs Require Import Solve2dProofs Solve3dProofs VectorizedProofs.
+From FT.gen Require Import Interp2d Interp3d FteikCommon Ray2d Ray3d.
+From FT.proofs Require Import Solve2dProofs Solve3dProofs VectorizedProofs Ray2dProofs.
+From FT.proofs Require Ray3dProofs.
 Import ListNotations.
 Open Scope Z_scope.
 
@@ -83,9 +85,92 @@ Theorem C13_list_solve2d_returns_map_of_singles :
        fteik2d_vectorized slow dz dx zsrc xsrc nsweep grad = Ok (map r (pyrange 0 (dim zsrc 0) 1)).
 Proof. exact @VectorizedProofs.solve2d_list_is_map_of_singles. Qed.
 
+(* single raytrace: ValueError iff the end point fails the hull test *)
+Theorem C13_single_ray2d_value_error_iff_outside :
+  forall (T : Type) (H : Num T) (z x zgrad xgrad : arr T) (zend xend zsrc xsrc stepsize : T) 
+         (max_step : Z) (hg : bool) (fuel : nat),
+       u_ray2d_v fuel z x zgrad xgrad zend xend zsrc xsrc stepsize max_step hg = OutOfFuel \/
+       (u_ray2d_v fuel z x zgrad xgrad zend xend zsrc xsrc stepsize max_step hg = Raise ValueError <->
+        hull2 z x zend xend = false).
+Proof. exact @Ray2dProofs.ray2d_raises_value_error_iff. Qed.
+
+(* list raytrace: the non-raising core mapped over the end points, then the first negative count decides the exception - nothing is raised from inside the parallel loop *)
+Theorem C13_list_ray2d_spec :
+  forall (T : Type) (H : Num T) (z x zgrad xgrad zend xend : arr T) (zsrc xsrc stepsize : T) 
+         (max_step : Z) (hg : bool) (fuel : nat),
+       u_ray2d_vectorized_v fuel z x zgrad xgrad zend xend zsrc xsrc stepsize max_step hg =
+       rbind
+         (mapM
+            (fun i : Z =>
+             u_ray2d_core_v fuel z x zgrad xgrad (get (nofZ 0) zend [i]) (get (nofZ 0) xend [i]) zsrc xsrc stepsize
+               max_step hg) (pyrange 0 (dim zend 0) 1))
+         (fun l : list (arr T * Z) => match first_exc count_exc l with
+                                      | Some e => Raise e
+                                      | None => Ok l
+                                      end).
+Proof. exact @Ray2dProofs.ray2d_vectorized_spec. Qed.
+
+(* the list call raises e iff the first failing single call raises e, and returns the singles' results when none fails *)
+Theorem C13_list_ray2d_raises_like_first_failing_single :
+  forall (T : Type) (H : Num T) (z x zgrad xgrad zend xend : arr T) (zsrc xsrc stepsize : T) 
+         (max_step : Z) (hg : bool) (fuel : nat),
+       (forall i : Z,
+        In i (pyrange 0 (dim zend 0) 1) ->
+        u_ray2d_core_v fuel z x zgrad xgrad (get (nofZ 0) zend [i]) (get (nofZ 0) xend [i]) zsrc xsrc stepsize max_step
+          hg <> OutOfFuel) ->
+       (forall e : exn,
+        u_ray2d_vectorized_v fuel z x zgrad xgrad zend xend zsrc xsrc stepsize max_step hg = Raise e <->
+        (exists (l1 : list Z) (i : Z) (l2 : list Z),
+           pyrange 0 (dim zend 0) 1 = l1 ++ i :: l2 /\
+           (forall j : Z,
+            In j l1 ->
+            exists rc : arr T * Z,
+              u_ray2d_v fuel z x zgrad xgrad (get (nofZ 0) zend [j]) (get (nofZ 0) xend [j]) zsrc xsrc stepsize
+                max_step hg = Ok rc) /\
+           u_ray2d_v fuel z x zgrad xgrad (get (nofZ 0) zend [i]) (get (nofZ 0) xend [i]) zsrc xsrc stepsize max_step
+             hg = Raise e)) /\
+       (forall l : list (arr T * Z),
+        u_ray2d_vectorized_v fuel z x zgrad xgrad zend xend zsrc xsrc stepsize max_step hg = Ok l <->
+        Forall2
+          (fun (i : Z) (rc : arr T * Z) =>
+           u_ray2d_v fuel z x zgrad xgrad (get (nofZ 0) zend [i]) (get (nofZ 0) xend [i]) zsrc xsrc stepsize max_step
+             hg = Ok rc) (pyrange 0 (dim zend 0) 1) l).
+Proof. exact @Ray2dProofs.ray2d_list_raises_like_first_failing_single. Qed.
+
+(* 3D *)
+Theorem C13_list_ray3d_raises_like_first_failing_single :
+  forall (T : Type) (H : Num T) (z x y zgrad xgrad ygrad zend xend yend : arr T) (zsrc xsrc ysrc stepsize : T)
+         (max_step : Z) (hg : bool) (fuel : nat),
+       (forall i : Z,
+        In i (pyrange 0 (dim zend 0) 1) ->
+        u_ray3d_core_v fuel z x y zgrad xgrad ygrad (get (nofZ 0) zend [i]) (get (nofZ 0) xend [i])
+          (get (nofZ 0) yend [i]) zsrc xsrc ysrc stepsize max_step hg <> OutOfFuel) ->
+       (forall e : exn,
+        u_ray3d_vectorized_v fuel z x y zgrad xgrad ygrad zend xend yend zsrc xsrc ysrc stepsize max_step hg = Raise e <->
+        (exists (l1 : list Z) (i : Z) (l2 : list Z),
+           pyrange 0 (dim zend 0) 1 = l1 ++ i :: l2 /\
+           (forall j : Z,
+            In j l1 ->
+            exists rc : arr T * Z,
+              u_ray3d_v fuel z x y zgrad xgrad ygrad (get (nofZ 0) zend [j]) (get (nofZ 0) xend [j])
+                (get (nofZ 0) yend [j]) zsrc xsrc ysrc stepsize max_step hg = Ok rc) /\
+           u_ray3d_v fuel z x y zgrad xgrad ygrad (get (nofZ 0) zend [i]) (get (nofZ 0) xend [i])
+             (get (nofZ 0) yend [i]) zsrc xsrc ysrc stepsize max_step hg = Raise e)) /\
+       (forall l : list (arr T * Z),
+        u_ray3d_vectorized_v fuel z x y zgrad xgrad ygrad zend xend yend zsrc xsrc ysrc stepsize max_step hg = Ok l <->
+        Forall2
+          (fun (i : Z) (rc : arr T * Z) =>
+           u_ray3d_v fuel z x y zgrad xgrad ygrad (get (nofZ 0) zend [i]) (get (nofZ 0) xend [i])
+             (get (nofZ 0) yend [i]) zsrc xsrc ysrc stepsize max_step hg = Ok rc) (pyrange 0 (dim zend 0) 1) l).
+Proof. exact @Ray3dProofs.ray3d_list_raises_like_first_failing_single. Qed.
+
 Print Assumptions C13_single_solve2d_raises_iff_outside.
 Print Assumptions C13_single_solve3d_raises_iff_outside.
 Print Assumptions C13_list_solve2d_spec.
 Print Assumptions C13_list_solve3d_spec.
 Print Assumptions C13_list_solve2d_raises_if_some_source_outside.
 Print Assumptions C13_list_solve2d_returns_map_of_singles.
+Print Assumptions C13_single_ray2d_value_error_iff_outside.
+Print Assumptions C13_list_ray2d_spec.
+Print Assumptions C13_list_ray2d_raises_like_first_failing_single.
+Print Assumptions C13_list_ray3d_raises_like_first_failing_single.
